@@ -161,3 +161,10 @@ type plainRuntimeError string
 
 func (e plainRuntimeError) Error() string { return string(e) }
 func (e plainRuntimeError) RuntimeError() {}
+
+// FromRecv and FromSend re-type a directional channel as the bidirectional
+// channel it is (a channel value is one pointer whatever its direction), so that
+// the operations above, which key their model state by that pointer, apply.
+func FromRecv[T any](ch <-chan T) chan T { return *(*chan T)(unsafe.Pointer(&ch)) }
+
+func FromSend[T any](ch chan<- T) chan T { return *(*chan T)(unsafe.Pointer(&ch)) }
